@@ -390,8 +390,8 @@ func run(c *fw.Ctx) {
 		if c.Shard == 0 {
 			c.Count("single_deviations", int64(len(singles)))
 		}
-		if !c.Thorough() && (ct.target == "person" || ct.target == "nestrep" || ct.target == "nest16") {
-			continue // quick: pairs for the narrow shapes only
+		if (!c.Thorough() && ct.target == "person") || ct.target == "nestrep" || ct.target == "nest16" {
+			continue // quick: pairs for the narrow shapes only; the two wide type-coverage shapes: single deviations in both tiers
 		}
 		red := singleDevs(t, ct, 0, true)
 		var pairs int64
